@@ -99,6 +99,12 @@ package plush
 //@ ensures def: result == (view(c, box(key)) != nil)
 //@ assigns nothing
 
+// a copy of this context's own bindings, taken under the lock (used by the evaluator's scope-copy loops)
+//@ func (c *Context) snapshot
+//@ ensures copy: fresh(result) && (forall k string :: has(result, k) ==> has(c.data, k) && result[k] == c.data[k])
+//@ assigns fresh
+//@ loop 1: invariant m != nil && fresh(m) && (forall k string :: has(m, k) ==> has(c.data, k) && m[k] == c.data[k])
+
 //@ func (c *Context) Set
 //@ ensures put: has(c.data, key) && c.data[key] == value
 //@ ensures rest: forall k string :: k != key ==> has(c.data, k) == old(has(c.data, k)) && c.data[k] == old(c.data[k])
@@ -472,3 +478,8 @@ package plush
 //@ errprop
 //@ assigns contents(cache), anyobj(Template.program), mapsof("map[string]interface{}"), fresh
 //@ loop 1: invariant is(help.Context, "*Context") && pay(help.Context) != 0 && pkginit()
+
+// ---- C14: lock discipline -------------------------------------------------------------------------
+// Every read, write or range of these maps must happen while the guarding mutex is held.
+//@ guarded_by Context.data by Context.moot
+//@ guarded_by cache by moot
